@@ -958,10 +958,93 @@ def rule_config_plumbing(check):
         check.expect(bool(ok), R, R + "/complete-list", hir.loc(lit), "methods = the complete configured list", "CsiMethods::new does not keep the complete configured list (%s)" % hir.describe(m))
 
 
+def rule_comments_gate(check):
+    R = "COMMENTS-GATE"
+    check.rule(R, "the printer is handed the comment store only when the comments option is on: every PrintArgs built by the rewriter has `comments` = Some(..) exactly on paths where config.print_comments holds and None otherwise (with the option off - the default - no comment of the input, of whatever kind, reaches the output)")
+    from ..prov import value_exprs
+    from .. import gate as _gate
+
+    prog = check.prog
+    lits = []
+    for f in prog.user_fns:
+        if f.rec.get("in_test"):
+            continue
+        for n in f.nodes():
+            if n.get("k") == "Struct" and ((n.get("res") or {}).get("path") or "").split("::")[-1] == "PrintArgs":
+                lits.append((f, n))
+    check.floor(R, "PrintArgs literals", len(lits), 1)
+
+    def leaves(f, e, depth=0):
+        e = hir.peel(e)
+        l_ = hir.local_of(e) if e.get("k") == "Path" else None
+        if l_ and depth < 4:
+            b_ = f.bindings().get(l_[0])
+            if b_ and b_["origin"][0] == "let" and b_["origin"][1] is not None and not f.assignments_to(l_[0]):
+                return leaves(f, b_["origin"][1], depth + 1)
+        if e.get("k") in ("If", "Match", "BlockExpr", "Block"):
+            out = []
+            for v in value_exprs(e):
+                out += leaves(f, v, depth + 1) if hir.peel(v) is not e else [hir.peel(v)]
+            return out
+        return [e]
+
+    def judge(f, e, depth=0):
+        bad = []
+        for v in leaves(f, e):
+            # `opt.map(|c| c as &dyn Comments)`: present exactly when opt is
+            while hir.is_call(v) and (hir.callee_name(v) or v.get("method")) in ("map", "as_ref", "as_deref", "clone", "copied") and hir.call_args(v):
+                v = hir.peel(hir.call_args(v)[0])
+            if v.get("k") in ("If", "Match", "BlockExpr", "Block") or (v.get("k") == "Path" and hir.local_of(v) and f.bindings().get(hir.local_of(v)[0], {}).get("origin", ("",))[0] == "let"):
+                sub = [x for x in leaves(f, v) if x is not v]
+                if sub:
+                    for x in sub:
+                        bad += judge(f, x, depth + 1) if depth < 4 else ["?"]
+                    continue
+            l_ = hir.local_of(v) if v.get("k") == "Path" else None
+            b_ = f.bindings().get(l_[0]) if l_ else None
+            if b_ and b_["origin"][0] == "param" and depth < 3:
+                # decided by the callers (of the production code)
+                ups = [(cf, c) for cf, c in prog.sites_calling(f) if hir.is_call(c) and not cf.rec.get("in_test")]
+                if not ups:
+                    bad.append("parameter of %s, which nothing calls" % f.name)
+                for cf, c in ups:
+                    a_ = hir.call_args(c)
+                    bad += judge(cf, a_[b_["origin"][1]], depth + 1) if b_["origin"][1] < len(a_) else ["?"]
+                continue
+            atoms = _gate.atoms_at(f, v)
+            on = [a for a in atoms if a[0] == "place" and str(a[1]).split(".")[-1].split("#")[0] == "print_comments"]
+            is_none = v.get("k") == "Path" and ((v.get("res") or {}).get("ctor_path") or "").split("::")[-1] == "None"
+            is_some = v.get("k") == "Call" and ((hir.peel(v["f"]).get("res") or {}).get("ctor_path") or "").split("::")[-1] == "Some"
+            if hir.is_call(v) and (hir.callee_name(v) or v.get("method")) in ("then_some", "then") and hir.call_args(v):
+                recv = hir.place(hir.call_args(v)[0]) or ""
+                if recv.split(".")[-1].split("#")[0] != "print_comments":
+                    bad.append("%s(..) on %s" % (hir.callee_name(v) or v.get("method"), recv or "?"))
+                continue
+            if is_none:
+                if any(a[2] is True for a in on):
+                    bad.append("None although comments are asked for")
+                continue
+            if is_some:
+                if not any(a[2] is True for a in on):
+                    bad.append("Some(..) on a path where config.print_comments is not known to hold")
+                continue
+            bad.append(hir.describe(v)[:60])
+        return bad
+
+    for f, n in lits:
+        flds = {x["name"]: x["e"] for x in n["fields"]}
+        if "comments" not in flds:
+            check.ok(R, "%s/%s/absent" % (R, f.name), hir.loc(n), "comments left at its default (None)")
+            continue
+        bad = judge(f, flds["comments"])
+        check.expect(not bad, R, "%s/%s/comments" % (R, f.name), hir.loc(n), "comments = Some(store) iff config.print_comments", "the comment store reaches the printer regardless of the comments option (%s): comments of the input are printed with comments off" % "; ".join(sorted(set(bad))))
+
+
 def run(check):
     check.guarded("CONFIG-PLUMBING", rule_config_plumbing)
     check.guarded("OP-GATE", rule_op_gates)
     check.guarded("JS-CONFIG", rule_js_config)
+    check.guarded("COMMENTS-GATE", rule_comments_gate)
     check.guarded("METHOD-GATE", rule_method_gates)
     check.guarded("METHOD-GATE", rule_call_apply_name)
     # the configured name is compared with an *identifier* property only: `obj.#trim()` and `obj["trim"]()`
